@@ -769,9 +769,16 @@ func c05(c *core.Ctx, r *core.Report) {
 			}
 			n++
 			key := core.FuncName(fn) + "#ctx-guard"
-			if ctxParam == nil {
-				r.Violation(key, c.Pos(fn.Pos()), "%s forwards work without looking at a context", core.FuncName(fn))
-				continue
+			// the context looked at: the parameter, or a context kept in a field of the pool (the worker context Start made)
+			isCtx := func(v ssa.Value) bool {
+				v = an.Strip(v)
+				if ctxParam != nil && v == ssa.Value(ctxParam) {
+					return true
+				}
+				if f, _ := an.TerminalField(v); f != nil && f.Pkg() != nil && f.Pkg().Path() == workersPkg && an.IsNamed(f.Type(), "context", "Context") {
+					return true
+				}
+				return false
 			}
 			ok := false
 			for _, g := range an.GuardsOf(fwd.Block()) {
@@ -780,7 +787,7 @@ func c05(c *core.Ctx, r *core.Report) {
 					continue
 				}
 				call, isC := an.Strip(bo.X).(*ssa.Call)
-				if !isC || !call.Common().IsInvoke() || call.Common().Method.Name() != "Err" || an.Strip(call.Common().Value) != ssa.Value(ctxParam) {
+				if !isC || !call.Common().IsInvoke() || call.Common().Method.Name() != "Err" || !isCtx(call.Common().Value) {
 					continue
 				}
 				if k, isK := bo.Y.(*ssa.Const); isK && k.IsNil() {
@@ -1006,3 +1013,4 @@ func timerChanDuration(ch ssa.Value) ssa.Value {
 	}
 	return nil
 }
+
